@@ -182,6 +182,10 @@ NOTHING.ghost_state = ("__written",)
 NOTHING.fstring_model = _fstring_csv
 TASKS.append(FunctionTask(NOTHING, module_env=_CLI_ENV, label="hvsrpy.cli._process_hvsr[--no_figure --no_file]", clauses=["--no_file writes nothing"]))
 
+# the two library stages the worker calls are themselves dispatchers: their routing is part of "the library pipeline"
+import contracts.dispatch as _DISPATCH
+TASKS += _DISPATCH.PROCESS_TASKS + _DISPATCH.PREPROCESS_TASKS
+
 META = dict(
     level="other",
     explanation="structural obligations: the worker deep-copies both settings objects before first use, reads only its own file, runs read -> preprocess -> "
